@@ -271,8 +271,13 @@ class InitExec:
             for n, dv in zip(names[len(names) - len(pfn.args.defaults):], pfn.args.defaults):
                 if n not in env2:
                     env2[n] = self.ev(dv, env2)
-            if env2.get("memoize", S("const", value=True)) == S("const", value=False):
+            mz = env2.get("memoize", S("const", value=True))
+            if mz == S("const", value=False):
                 self.memoize = False
+            elif mz != S("const", value=True):
+                # `memoize=<expression>`: whether the node is shared would depend on the archive; not a kind of the model
+                self.memoize = False
+                self.effects.append("memoize argument is not a constant: " + str(mz.get("tag")))
             self.block(pfn.body, env2)
             self.owner, self.glob = saved
             return S("none")
